@@ -161,7 +161,13 @@ impl From<core::time::Duration> for Duration {
 
 impl From<Duration> for core::time::Duration {
     fn from(x: Duration) -> Self {
-        core::time::Duration::new(x.sec as u64, x.nanosec)
+        // core::time::Duration can not be negative. A negative duration (e.g. the time left
+        // until an instant that is already in the past) is no time at all, not 2^64 seconds
+        if x.sec < 0 {
+            core::time::Duration::ZERO
+        } else {
+            core::time::Duration::new(x.sec as u64, x.nanosec)
+        }
     }
 }
 
